@@ -538,6 +538,7 @@ MODELS = [
     (R(r'<Vec<.*> as IntoIterator>::into_iter'), vec_into_iter),
     (R(r'core::slice::<impl \[.*\]>::iter'), slice_iter),
     (R(r'<&IndexMap<.*> as IntoIterator>::into_iter'), slotmap_iter),
+    (R(r'<&(mut )?Vec<.*> as IntoIterator>::into_iter'), slice_iter),
     (R(r'<.* as IntoIterator>::into_iter'), iter_identity),
     (R(r'<.* as Iterator>::next'), iter_next),
     (R(r'<.* as Iterator>::rev'), iter_rev),
@@ -608,7 +609,9 @@ MODELS_NORM = [(re.compile(norm_path(p.pattern)), f) for p, f in MODELS]
 class SymStr:
     """an opaque string identified by a tag (package name, exclusion prefix)"""
     def __init__(self, tag): self.tag = tag
-    def merge(self, g, o): return self
+    def merge(self, g, o):
+        if o.tag != self.tag: raise Unsupported('merge of two different symbolic strings')
+        return self
 def hashmap_iter_permuted(eng, c, a, g):
     """HashMap iteration order is unspecified: positions are filled through a symbolic permutation of the key universe"""
     perm = eng.cfg['hash_perm']
@@ -660,7 +663,34 @@ def symstr_starts_with(eng, c, a, g):
     if isinstance(t, SymStr) and isinstance(pre, SymStr): return eng.cfg['starts_with'][(t.tag, pre.tag)]
     return str_starts_with(eng, c, a, g)
 
+def int_cmp(eng, c, a, g):
+    x, y = deref_val(eng, a[0]), deref_val(eng, a[1])
+    return EnumV(IF(ULT(x, y), BV(255, 8), IF(EQ(x, y), BV(0, 8), BV(1, 8))), {})
+def partial_ord_via_cmp(eng, c, a, g):
+    """provided PartialOrd methods (ge/le/gt/lt) of an in-crate type: defined through its own partial_cmp, executed from MIR"""
+    m = re.fullmatch(r'<(.+) as PartialOrd>::(ge|le|gt|lt)', c)
+    name = eng.lookup_callee(f'<{m.group(1)} as PartialOrd>::partial_cmp')
+    if name is None: raise Unsupported('no in-crate partial_cmp for ' + c)
+    r = eng.call(name, [a[0], a[1]], g)      # Option<Ordering>
+    o = opt_payload(r).tag
+    some = opt_is_some(r)
+    lt, eq, gt = EQ(o, BV(255, 8)), EQ(o, BV(0, 8)), EQ(o, BV(1, 8))
+    return AND(some, {'ge': OR(gt, eq), 'le': OR(lt, eq), 'gt': gt, 'lt': lt}[m.group(2)])
+
+def sourcepos_add(eng, c, a, g):
+    r = ADD(a[0], a[1]); eng.obligations.append(('SourcePos + usize wraps', AND(g, ULT(r, a[0])))); return r
+def sourcepos_sub(eng, c, a, g):
+    eng.obligations.append(('SourcePos - usize underflows', AND(g, ULT(a[0], a[1])))); return SUB(a[0], a[1])
+def line_and_column_index(eng, c, a, g):
+    L, C = eng.cfg['line_col']      # the text's offset -> (line, column) mapping: an arbitrary function
+    return Agg([L(a[1]), C(a[1])])
+
 _C06 = [
+    (R(r'<SourcePos as Add<usize>>::add'), sourcepos_add),
+    (R(r'<SourcePos as Sub<usize>>::sub'), sourcepos_sub),
+    (R(r'SourceTextInfo::line_and_column_index'), line_and_column_index),
+    (R(r'<(usize|u64|u32|u8) as Ord>::cmp'), int_cmp),
+    (R(r'<[A-Z]\w* as PartialOrd>::(ge|le|gt|lt)'), partial_ord_via_cmp),
     (R(r'HashMap::<Version, .*>::iter'), hashmap_iter_permuted),
     (R(r'HashMap::<Version, .*>::get::<.*>'), map_get),
     (R(r'HashSet::<Version>::contains::<.*>'), set_contains),
@@ -678,3 +708,54 @@ _C06 = [
     (R(r'<.* as Iterator>::any::<.*'), iter_any),
 ]
 MODELS_NORM = [(re.compile(norm_path(p.pattern)), f) for p, f in _C06] + [(p, (symstr_starts_with if f is str_starts_with else f)) for p, f in MODELS_NORM]
+
+# ------------------------------------------------------------------ C20 kernels: text length, charset choice
+class TextLenV:
+    """an Arc<str>/&str of which only the byte length matters"""
+    def __init__(self, ln): self.len = ln
+    def merge(self, g, o): return TextLenV(IF(g, self.len, o.len))
+def str_len(eng, c, a, g):
+    t = a[0]
+    while isinstance(t, Ptr): t = eng.load(t)
+    if isinstance(t, TextLenV): return t.len
+    if isinstance(t, StrV): return BV(len(t.s.encode()), eng.W)
+    raise Unsupported(f'str::len of {t!r}')
+def option_unwrap_or_else(eng, c, a, g):
+    o = a[0]; p = opt_payload(o); is_some = opt_is_some(o)
+    if z3.is_true(is_some): return p
+    r = eng.call_closure(a[1], [], AND(g, NOT(is_some)))
+    return r if p is None else ite(is_some, p, r)
+def detect_charset_model(eng, c, a, g): return ref_to(SymStr('detected-charset'), 'charset')
+def decode_model(eng, c, a, g):
+    cs = a[0]
+    if isinstance(cs, Ptr):
+        for cnd, pl in cs.targets: eng.cfg.setdefault('decode_calls', []).append((AND(g, cnd), eng.read(pl)))
+    else: eng.cfg.setdefault('decode_calls', []).append((g, cs))
+    return EnumV(eng.cfg['decode_ok_tag'], {0: Agg([Agg([TextLenV(eng.cfg['decoded_len']), EnumV(eng.cfg['decoded_kind'], {})])]), 1: Agg([Opaque('io error')])})
+def result_map(eng, c, a, g):
+    r, clo = a[0], a[1]
+    ok = r.is_variant(0); p = r.vars[0].f[0] if 0 in r.vars and r.vars[0].f else None
+    if p is None or z3.is_false(ok): return r
+    v = eng.call_closure(clo, [p], AND(g, ok))
+    return EnumV(r.tag, {0: Agg([v]), 1: r.vars.get(1, Agg([]))})
+def result_map_err(eng, c, a, g):
+    r, clo = a[0], a[1]
+    err = r.is_variant(1); p = r.vars[1].f[0] if 1 in r.vars and r.vars[1].f else None
+    if p is None or z3.is_false(err): return r
+    v = eng.call_closure(clo, [p], AND(g, err))
+    return EnumV(r.tag, {0: r.vars.get(0, Agg([])), 1: Agg([v])})
+def arc_new(eng, c, a, g): return a[0]
+
+_C20 = [
+    (R(r'<impl str>::len'), str_len),
+    (R(r'<Arc<.*> as Deref>::deref'), deref_identity),
+    (R(r'Arc::<.*>::new'), arc_new),
+    (R(r'<.* as AsRef<.*>>::as_ref'), deref_identity),
+    (R(r'Arc::<.*>::new'), arc_new),
+    (R(r'Option::<.*>::unwrap_or_else::<.*'), option_unwrap_or_else),
+    (R(r'detect_charset'), detect_charset_model),
+    (R(r'decode_arc_source_detail'), decode_model),
+    (R(r'Result::<.*>::map::<.*'), result_map),
+    (R(r'Result::<.*>::map_err::<.*'), result_map_err),
+]
+MODELS_NORM = [(re.compile(norm_path(p.pattern)), f) for p, f in _C20] + MODELS_NORM
